@@ -1,5 +1,5 @@
 import RustCcModel.Model.Protocol
-import RustCcModel.Proofs.Counts
+import RustCcModel.Proofs.InvDefs
 /-! Debug driver: runs programs like `Main`, checking executable invariants after every micro-step. -/
 open RustCc
 
@@ -15,6 +15,62 @@ def countsViolation (w : World) : Option String :=
   | [] => none
   | l => some (" ".intercalate l)
 
+def invViolation (w : World) : Option String :=
+  let ids := List.range (w.next + 3)
+  let L := listed w.stack
+  let Z := zeroed w.stack
+  let per := ids.filterMap fun x =>
+    let o := w.heap x
+    let errs : List String :=
+      (if decide (refs w x > o.rc) then [s!"leAll:{x}"] else []) ++
+      (if decide (o.mark = .pc) != decide (x ∈ w.pc) then [s!"mPc:{x}"] else []) ++
+      (if decide (x ∈ w.pc) && decide (o.tc ≠ 0) then [s!"tc0:{x}:{o.tc}"] else []) ++
+      (if decide (o.mark = .inQueue) then [s!"noQueue:{x}"] else []) ++
+      (if decide (o.mark = .inList) != decide (x ∈ L) then [s!"mList:{x}"] else []) ++
+      (if !o.boxLive && (decide (o.rc ≠ 0) || decide (o.mark ≠ .non)) then [s!"dead:{x}"] else []) ++
+      (if decide (x ∈ Z) && (!o.boxLive || decide (o.rc ≠ 0) || decide (o.mark ≠ .non)) then [s!"zero:{x}:{o.rc}"] else []) ++
+      (if decide (x ∈ cycs w.stack) && o.valLive then [s!"cyc:{x}"] else []) ++
+      (if decide (x ∈ L) && !o.boxLive then [s!"listedLive:{x}"] else []) ++
+      (if decide (x ∈ pinned w.stack) && decide (x ∈ L) then [s!"pin:{x}"] else []) ++
+      (if decide (x ≥ w.next) && o.boxLive then [s!"fresh:{x}"] else [])
+    match errs with
+    | [] => none
+    | l => some (" ".intercalate l)
+  let glob : List String :=
+    (if decide (w.pc.Nodup) then [] else ["pcNodup"]) ++
+    (if decide ((Z ++ L).Nodup) then [] else ["ownNodup"]) ++
+    (if stackWF w.stack then [] else ["wf"])
+  match per ++ glob with
+  | [] => none
+  | l => some (" ".intercalate l)
+
+def doomViolation (c : Cfg) (w : World) : Option String :=
+  let ids := List.range w.next
+  let per := ids.filterMap fun x =>
+    let o := w.heap x
+    let errs : List String :=
+      (if o.doomed && decide ((optIds w.H).count x ≠ 0 ∨ w.stash x ≠ 0) then [s!"D1a:{x}"] else []) ++
+      (if o.doomed && ids.any (fun u => decide (x ∈ fieldsOf (w.heap u)) && !(w.heap u).doomed) then [s!"D1b:{x}"] else []) ++
+      (if o.doomed && w.stack.any (fun f => decide (x ∈ f.holds) && (match f with | .dropCc _ => false | _ => true)) then [s!"D1c:{x}"] else []) ++
+      (if o.boxLive && !o.valLive && !o.doomed && decide (o.rc ≠ 0) then [s!"D2:{x}"] else []) ++
+      (if o.doomed && c.fin && !o.finalized then [s!"D3:{x}"] else [])
+    match errs with
+    | [] => none
+    | l => some (" ".intercalate l)
+  match per with
+  | [] => none
+  | l => some (" ".intercalate l)
+
+def anyViolation (c : Cfg) (w : World) : Option String :=
+  match countsViolation w, invViolation w, doomViolation c w with
+  | none, none, none => none
+  | a, b, d => some (a.getD "" ++ " " ++ b.getD "" ++ " " ++ d.getD "")
+
+def anyViolationOld (w : World) : Option String :=
+  match countsViolation w, invViolation w with
+  | none, none => none
+  | a, b => some (a.getD "" ++ " " ++ b.getD "")
+
 def runChk (c : Cfg) : Nat → Nat → World → World × Option String
   | 0, _, w => (w, none)
   | fuel + 1, n, w =>
@@ -22,7 +78,7 @@ def runChk (c : Cfg) : Nat → Nat → World → World × Option String
     else if w.mode = .aborted ∨ w.mode = .stuck then (w, none)
     else
       let w' := (step c w).compact
-      match countsViolation w' with
+      match anyViolation c w' with
       | some v => (w', some v)
       | none => runChk c fuel (n + 1) w'
 
@@ -77,7 +133,7 @@ partial def loop (h out : IO.FS.Stream) (st : DState) (bad : Nat) : IO Nat := do
     | some op =>
       if st.world.mode = .aborted ∨ st.world.mode = .stuck then loop h out st bad else
       let w0 := { st.world with stack := [.script [op] none none true, .catchTop], events := [], ret := .ok }
-      match countsViolation w0 with
+      match anyViolation st.cfg w0 with
       | some v => do out.putStrLn s!"VIOLATION-at-start {st.name}: {v} op={line.trimAscii}"; loop h out st (bad + 1)
       | none =>
         let (w, v) := runChk st.cfg 200000 0 w0
